@@ -1,5 +1,5 @@
 """C19 — a runner is a traceable array program of its parameters."""
-import random
+import random, json
 import numpy as np
 from common import *
 
@@ -27,8 +27,24 @@ def task(W, payload):
     import jax, jax.numpy as jnp
     r = random.Random(f"C19:{payload['seed']}:{payload['index']}")
     # every third program supplies the whole initial population as an array graph object of parameters (init_population_with_graphobject)
-    prog = Gen(r, Opts(max_strats=2, max_flows=5, n_requests=4, allow_rebalance=True, allow_array_pop=(payload["index"] % 3 == 0))).program()
+    shared_role = payload["index"] % 3 == 1
+    prog = Gen(r, Opts(max_strats=2, max_flows=5, n_requests=4, allow_rebalance=True, allow_array_pop=(payload["index"] % 3 == 0),
+                       allow_param_split=not shared_role)).program()
     out = mk_out(prog)
+    if shared_role:
+        # ONE parameter object in two roles: the rate of an (earlier registered) importation flow and the only parameterised entry of the
+        # initial distribution; every other population input is a constant
+        ip = [op for op in prog["build"] if op["op"] == "init_pop"]
+        if ip:
+            def constify(e):
+                return {"c": q(Fr(r.randint(1, 60)))} if ("p" in json.dumps(e)) else e
+            ip[0]["dist"] = [[k, constify(e)] for k, e in ip[0]["dist"]]
+            tgt = r.randrange(len(ip[0]["dist"]))
+            ip[0]["dist"][tgt][1] = {"p": "shr"}
+            prog["params"]["shr"] = q(Fr(r.choice([10, 25, 40])))
+            at = prog["build"].index(ip[0]) + 1
+            prog["build"].insert(at, {"op": "flow", "kind": "import", "name": "imports", "param": {"p": "shr"}, "dst": ip[0]["dist"][tgt][0], "split": False})
+            bump(out, "one_parameter_in_two_roles")
     if any(op["op"] == "init_pop_array" for op in prog["build"]): bump(out, "array_population")
     from interp import Interp
     I = Interp()
@@ -72,6 +88,10 @@ def task(W, payload):
             # ... and so must its derived outputs, against a runner BUILT at these values (a parameter that only derived outputs use
             # must not be baked into the compiled program as the constant it had when the runner was built)
             fresh = m.get_runner(p2, jit=False, solver="euler")._run_func(parameters=p2)
+            of = np.asarray(fresh["outputs"])
+            if np.all(np.isfinite(of)) and np.abs(of).max() < 1e7 and not mat_close(oa.tolist(), of.tolist(), 1e-9):
+                fail(out, "a runner compiled once gives different results from a runner built at the new parameter values (a run-time parameter was baked into the program)",
+                     "c19", payload, params=p2, built_with=params, program=prog["build"])
             da, df = a["derived_outputs"], fresh["derived_outputs"]
             if sorted(da) != sorted(df):
                 fail(out, "a runner compiled once returns different derived outputs names at other parameter values", "c19", payload, params=p2, program=prog["build"])
